@@ -51,6 +51,9 @@ func main() {
 		}
 		os.Setenv("VERIF_NO_EVIDENCE", "1")
 		os.Exit(runProp(r.Property, "quick"))
+	case "arrays":
+		arraysCmd(os.Args[2:])
+		return
 	case "rename": // dev: print <file> with all locals renamed (the rename_all benign variant)
 		b, err := os.ReadFile(os.Args[2])
 		if err != nil {
